@@ -180,7 +180,7 @@ class Printer:
         if k == 'self':
             return 'self'
         if k == 'dollar':
-            return '$'
+            return '$ '   # `$` is an operator character: keep it from fusing with a following `:` etc.
         if k == 'str':
             return jstr(e[1])
         if k == 'num':
@@ -229,7 +229,9 @@ class Printer:
             sym, p = BINOPS[e[1]]
             return self.at(e[2], p) + self.sp() + sym + self.sp() + self.at(e[3], p + 1)
         if k == 'unary':
-            return UNOPS[e[1]] + self.at(e[2], P_UNARY)
+            operand = self.at(e[2], P_UNARY)
+            # consecutive operator characters would lex as one (unknown) operator
+            return UNOPS[e[1]] + (' ' if operand[:1] in '!$:~+-&|^=<>*/%' else '') + operand
         if k == 'objext':
             return self.at(e[1], P_POSTFIX) + self.sp() + self.members(e[2])
         if k == 'func':
